@@ -50,6 +50,15 @@ blanks before the colon, with or without the separating blank) -/
 theorem match_formatted (rep : Bool) (r : FRec) (h : r.WF) :
     matchLine rep (r.line, true) = some (r.tag, r.body) := matchLine_formatted rep r h
 
+/-- the converse: a line contributes to the report ONLY if it has that shape — blanks, a non-empty
+run of non-blanks (the label), blanks, a colon; its body is what follows the colon minus one
+optional blank.  Together with `match_formatted`: dshbak attributes a line to a host exactly when
+the line is a labelled line, and every other line is ignored (never mixed into a host's output). -/
+theorem match_only_labelled (rep : Bool) (l t b : Str) (h : matchLine rep (l, true) = some (t, b)) :
+    ∃ lead mid rest, l = lead ++ (t ++ (mid ++ ':' :: rest)) ∧ b = dropOneSpace rest ∧ t ≠ [] ∧
+      (∀ c ∈ lead, isSpace c = true) ∧ (∀ c ∈ t, isSpace c = false) ∧ (∀ c ∈ mid, isSpace c = true) :=
+  matchLine_some h
+
 /-- a text made of newline-terminated lines is cut into exactly those lines -/
 theorem input_is_its_lines (ls : List Str) (h : ∀ l ∈ ls, '\n' ∉ l) :
     readLines (ls.flatMap (· ++ ['\n'])) = ls.map (·, true) := by
